@@ -270,51 +270,58 @@ func (x *world7) run(res *engine.Result, tier string, shard, n int, idx *int) {
 		}
 	}
 
-	// ---- two Ethereum messages in one transaction
+	// ---- two Ethereum messages in one transaction, each with its own price
 	for _, price := range prices {
-		*idx++
-		if *idx%n != shard {
-			continue
-		}
-		to1, to2 := w.Eth[x.R], x.clearC
-		t1 := w.SignEth(w.Keys[x.S], world.EthSpec{Nonce: nonce, Gas: 30000, To: &to1, Value: big.NewInt(5), GasPrice: price})
-		t2 := w.SignEth(w.Keys[x.S], world.EthSpec{Nonce: nonce + 1, Gas: 60000, To: &to2, GasPrice: price})
-		bz, err := world.WrapEth(t1, t2)
-		if err != nil {
-			continue
-		}
-		p := []string{"fixture=" + x.f.name, fmt.Sprintf("two-eth-msgs price=%s", price)}
-		restore := w.Branch()
-		preS, preC := x.bal(w.Addrs[x.S]), x.bal(x.feeCol)
-		r := w.Deliver(bz)
-		postS, postC := x.bal(w.Addrs[x.S]), x.bal(x.feeCol)
-		restore()
-		res.Transitions++
-		res.Evaluations++
-		paid, got := new(big.Int).Sub(preS, postS), new(big.Int).Sub(postC, preC)
-		if paid.Sign() == 0 {
-			res.Outcomes["eth2:rejected"]++
-			continue
-		}
-		res.Outcomes["eth2:executed"]++
-		g1 := uint64(21000)
-		if m := floorMul(mult, 30000); m > g1 {
-			g1 = m
-		}
-		g2 := uint64(21000 + 5006 - 4800)
-		if m := floorMul(mult, 60000); m > g2 {
-			g2 = m
-		}
-		d := map[string]any{"code": r.Code, "gas_used": r.GasUsed, "paid": paid.String(), "collector": got.String(), "want_gas": g1 + g2}
-		wantPay := new(big.Int).Mul(price, new(big.Int).SetUint64(g1+g2))
-		if uint64(r.GasUsed) != g1+g2 {
-			viol("eth-multi", "two-msgs", "gasused", "gas used of a two-message Ethereum transaction differs from the sum of the per-message figures", p, d)
-		}
-		if got.Cmp(wantPay) != 0 || paid.Cmp(new(big.Int).Add(wantPay, big.NewInt(5))) != 0 {
-			viol("eth-multi", "two-msgs", "sender", "payment of a two-message Ethereum transaction differs from the sum of gasUsed x price", p, d)
-		}
-		if new(big.Int).Mul(price, big.NewInt(90000)).Cmp(ceilMul(mgp, 90000)) < 0 {
-			viol("eth-multi", "two-msgs", "floor", "accepted below the fee floor", p, d)
+		for _, price2 := range prices {
+			*idx++
+			if *idx%n != shard {
+				continue
+			}
+			to1, to2 := w.Eth[x.R], x.clearC
+			t1 := w.SignEth(w.Keys[x.S], world.EthSpec{Nonce: nonce, Gas: 30000, To: &to1, Value: big.NewInt(5), GasPrice: price})
+			t2 := w.SignEth(w.Keys[x.S], world.EthSpec{Nonce: nonce + 1, Gas: 60000, To: &to2, GasPrice: price2})
+			bz, err := world.WrapEth(t1, t2)
+			if err != nil {
+				continue
+			}
+			p := []string{"fixture=" + x.f.name, fmt.Sprintf("two-eth-msgs price=%s,%s", price, price2)}
+			restore := w.Branch()
+			preS, preC := x.bal(w.Addrs[x.S]), x.bal(x.feeCol)
+			r := w.Deliver(bz)
+			postS, postC := x.bal(w.Addrs[x.S]), x.bal(x.feeCol)
+			restore()
+			res.Transitions++
+			res.Evaluations++
+			paid, got := new(big.Int).Sub(preS, postS), new(big.Int).Sub(postC, preC)
+			if paid.Sign() == 0 {
+				res.Outcomes["eth2:rejected"]++
+				continue
+			}
+			res.Outcomes["eth2:executed"]++
+			g1 := uint64(21000)
+			if m := floorMul(mult, 30000); m > g1 {
+				g1 = m
+			}
+			g2 := uint64(21000 + 5006 - 4800)
+			if m := floorMul(mult, 60000); m > g2 {
+				g2 = m
+			}
+			d := map[string]any{"code": r.Code, "gas_used": r.GasUsed, "paid": paid.String(), "collector": got.String(), "want_gas": g1 + g2, "base": fmt.Sprint(base), "mgp": mgp.String()}
+			wantPay := new(big.Int).Add(new(big.Int).Mul(price, new(big.Int).SetUint64(g1)), new(big.Int).Mul(price2, new(big.Int).SetUint64(g2)))
+			if uint64(r.GasUsed) != g1+g2 {
+				viol("eth-multi", "two-msgs", "gasused", "gas used of a two-message Ethereum transaction differs from the sum of the per-message figures", p, d)
+			}
+			if got.Cmp(wantPay) != 0 || paid.Cmp(new(big.Int).Add(wantPay, big.NewInt(5))) != 0 {
+				d["want_pay"] = wantPay.String()
+				viol("eth-multi", "two-msgs", "sender", "payment of a two-message Ethereum transaction differs from the sum of gasUsed x price of its messages", p, d)
+			}
+			// the floor and the base fee bind every message on its own
+			if new(big.Int).Mul(price, big.NewInt(30000)).Cmp(ceilMul(mgp, 30000)) < 0 || new(big.Int).Mul(price2, big.NewInt(60000)).Cmp(ceilMul(mgp, 60000)) < 0 {
+				viol("eth-multi", "two-msgs", "floor", "a message of a two-message Ethereum transaction was accepted below gasLimit x minGasPrice", p, d)
+			}
+			if price.Cmp(base) < 0 || price2.Cmp(base) < 0 {
+				viol("eth-multi", "two-msgs", "basefee", "a message of a two-message Ethereum transaction was accepted with a price below the base fee", p, d)
+			}
 		}
 	}
 
